@@ -22,15 +22,17 @@ CLAIMED = {
  "C13": ("model_checking", "C13_Step / invariant I_C13 on real edit histories (A-B-A, A-B-C, edits during canaries)", "TLC trace validation: replica-set create/delete guards, hash triple"),
  "C14": ("model_checking", "C14_Step: status function recomputed in TLA+ after every real EDS reconcile, ordering of counters after every real sync, quiescent clause on tails", "TLC trace validation: status function"),
  "C15": ("model_checking", "C15_Step after every real EDS reconcile of an active canary under node churn", "TLC trace validation: canary node list"),
+ "C11": ("fault_enumeration", "every API call index of the failure-free run of the corpus scenarios x fault kind (rejected / answer lost / process stop before or after the call, fresh controller instance), failure-free convergence afterwards; TLC evaluates every safety formula on every step of the faulted runs and compares the final state with the failure-free run (FinalAbs)", "fault enumeration on the real reconcilers, judged by TLA+ formulas"),
+ "C16": ("model_checking", "boundary lattice of the spec enumerated by TLC (Gen_Defaults.tla), each point through the real Default / IsDefaulted / Validate and both real Reconcile functions; reference transcription of defaulting and validation in Judge_Defaults.tla; recovered panics monitored on every step of every trace (P_C16)", "TLA+ reference of defaulting/validation evaluated on the complete bounded lattice of real results"),
+ "C19": ("model_checking", "C19_Step: frame condition and precondition of every kubectl-eds command body (run through verif shims with the cluster client) on the object diff, interpretation by the following real reconciles (state function, promotion of the validated replica set, rollback)", "TLC trace validation of real command executions"),
+ "C20": ("model_checking", "Gen_Labels.tla enumerates label maps over an alphabet with all illegal characters (collisions included) and a lattice of status values; Judge_Labels.tla evaluates the real BuildInfoLabels and metric family generators", "TLA+ reference evaluated on the complete bounded input space of the real functions"),
 }
 NA = {
  "C06": "check under construction (function-level conformance of the canary evaluation); not yet registered",
- "C11": "check under construction (fault enumeration); not yet registered",
- "C16": "check under construction (defaulting lattice); not yet registered",
+
  "C17": "check under construction; not yet registered",
  "C18": "check under construction; not yet registered",
- "C19": "check under construction (needs the kubectl-eds shims); not yet registered",
- "C20": "check under construction; not yet registered",
+
 }
 
 def main():
